@@ -57,6 +57,29 @@ class Untranslatable(Exception):
     pass
 
 
+_PAIRS = {}
+
+
+def zip_type(e1, e2):
+    """the type of a list of pairs whose components have the element types e1, e2"""
+    k = "(%s*%s)" % (e1, e2)
+    _PAIRS[k] = (e1, e2)
+    return "zip:" + k
+
+
+def elem_type(ty):
+    """element type of a list type, or None"""
+    if ty == "strs":
+        return "str"
+    if ty == "nums":
+        return "num"
+    if ty.startswith("list:"):
+        return "rec:" + ty[5:]
+    if ty.startswith("zip:"):
+        return "pair:" + ty[4:]
+    return None
+
+
 CMP = {ast.Lt: ("nlt", False), ast.LtE: ("nle", False), ast.Gt: ("ngt", False), ast.GtE: ("nge", False),
        ast.Eq: ("neqb", False), ast.NotEq: ("nneq", False)}
 
@@ -118,6 +141,14 @@ def tr(node, env):
         return ("(" + " && ".join(out) + ")" if len(out) > 1 else out[0]), "bool"
     if isinstance(node, ast.Call):
         fname = ast.unparse(node.func)
+        if fname == "sorted" and fname not in env:
+            # sorted(zip(names, numbers), key=operator.itemgetter(0)): stable sort of the pairs by their first component
+            if (len(node.args) == 1 and len(node.keywords) == 1 and node.keywords[0].arg == "key"
+                    and ast.unparse(node.keywords[0].value) == "operator.itemgetter(0)" and "operator" not in env):
+                pa, ta = tr(node.args[0], env)
+                if ta == zip_type("str", "num"):
+                    return "(sort_stable name_lt %s)" % pa, ta
+            raise Untranslatable("call " + ast.unparse(node)[:60])
         args = [tr(a, env) for a in node.args]
         kw = {k.arg: tr(k.value, env) for k in node.keywords}
         if fname == "math.isinf" and len(args) == 1:
@@ -129,8 +160,23 @@ def tr(node, env):
                 return "(isclose %s %s %s %s)" % (args[0][0], args[1][0], kw["rel_tol"][0], kw["abs_tol"][0]), "bool"
         if fname == "sum" and len(args) == 1 and args[0][1] == "nums":
             return "(pysum %s)" % args[0][0], "num"
-        if fname == "len" and len(args) == 1 and args[0][1] in ("nums", "strs", "list"):
+        if fname == "len" and len(args) == 1 and not kw and (args[0][1] in ("nums", "strs", "list") or elem_type(args[0][1])):
             return "(List.length %s)" % args[0][0], "nat"
+        if fname == "zip" and len(args) == 2 and not kw and fname not in env and elem_type(args[0][1]) and elem_type(args[1][1]):
+            return "(combine %s %s)" % (args[0][0], args[1][0]), zip_type(elem_type(args[0][1]), elem_type(args[1][1]))
+        if (isinstance(node.func, ast.Attribute) and node.func.attr == "count" and len(args) == 1 and not kw
+                and args[0][1] == "str"):
+            pr, tyr = tr(node.func.value, env)
+            if tyr == "strs":
+                return "(count_occ string_dec %s %s)" % (pr, args[0][0]), "nat"
+        if fname in FUN_CALLS and fname not in env:
+            # a call of a function that is itself a tied function site: its model counterpart (the caller depends
+            # on the callee's own tie, see funs_gen)
+            if "<deps>" not in env:
+                raise Untranslatable("call of %s outside a function site" % fname)
+            term = call_args(FUN_CALLS[fname], node, env)
+            env["<deps>"].add(FUN_CALLS[fname]["site"])
+            return term, FUN_CALLS[fname]["ty"]
         if fname == "math.log" and len(args) == 1 and args[0][1] == "num":
             return "(nlog %s)" % args[0][0], "num"
         if fname == "math.exp" and len(args) == 1 and args[0][1] == "num":
@@ -684,17 +730,143 @@ def generate():
 # docstrings, `return e`, `raise X(...)`, assignments to local names, `assert c[, msg]`, `if/elif/else`,
 # and the search loop `for x in xs: if c: break` + `else: <returns or raises>`.  Expressions are those of `tr`
 # plus the operations that can raise, bound in evaluation order in the error monad: `a / b` (pdiv),
-# `math.log` (plog), `math.exp` (pexp), `xs[0]` (phead).  Anything else is "untranslated" (fail-closed).
+# `math.log` (plog), `math.exp` (pexp), `xs[0]` (phead).  Also: loops `for t in xs / zip(xs, ys) / enumerate(..)` whose
+# body neither returns, assigns, breaks nor continues (forM_ / forM2_ of the body), the search loop
+# `for ..: if c: return False` + `return True` (forallb / forall2b), `try: S except E: raise E(..)` (= S),
+# `len`, `xs.count(x)`, `sorted(zip(names, nums), key=operator.itemgetter(0))`, and calls of functions that are
+# themselves function sites (FUN_CALLS / METHOD_CALLS: the callee's model term; the caller's tie then depends on the
+# callee's).  Anything else is "untranslated" (fail-closed).
 RECORDS = {
     "epoch": {"start_time": ("(e_start %s)", N), "end_time": ("(e_end %s)", N), "start_size": ("(e_ssize %s)", N),
               "end_size": ("(e_esize %s)", N), "size_function": ("(e_sf %s)", "str"), "selfing_rate": ("(e_self %s)", N),
               "cloning_rate": ("(e_clone %s)", N), "time_span": ("(nsub (e_start %s) (e_end %s))", N)},
-    "deme": {"start_time": ("(d_start %s)", N), "epochs": ("(d_epochs %s)", "list:epoch"), "name": ("(d_name %s)", "str")},
+    "deme": {"start_time": ("(d_start %s)", N), "epochs": ("(d_epochs %s)", "list:epoch"), "name": ("(d_name %s)", "str"),
+             "ancestors": ("(d_anc %s)", "strs"), "proportions": ("(d_props %s)", "nums")},
+    "pulse": {"sources": ("(p_srcs %s)", "strs"), "dest": ("(p_dst %s)", "str"), "time": ("(p_time %s)", N),
+              "proportions": ("(p_props %s)", "nums")},
     "mig": {"source": ("(m_src %s)", "str"), "dest": ("(m_dst %s)", "str"), "start_time": ("(m_start %s)", N),
             "end_time": ("(m_end %s)", N), "rate": ("(m_rate %s)", N)},
 }
 ERRS = {"ValueError": "ValueErr", "NotImplementedError": "OtherErr", "KeyError": "KeyErr", "TypeError": "TypeErr",
         "IndexError": "IndexErr", "AssertionError": "AssertErr", "ZeroDivisionError": "ZeroDivErr", "OverflowError": "OverflowErr"}
+
+
+# Calls of functions that are themselves function sites are translated compositionally, to the callee's model
+# counterpart.  This is justified by the callee's own tie, so the caller's tie holds only if the callee's does in the
+# same run (the dependency is recorded in env["<deps>"] and enforced in funs_gen).  The arguments are matched against
+# the callee's CURRENT signature; omitted arguments take the callee's current defaults (numeric module constants).
+NUMCONST = {1e-9: "nrel", 1e-12: "nabst"}
+FUN_CALLS = {
+    # a function returning a bool whose tie is  f ... = Ok (model ...)
+    "isclose_deme_proportions": dict(
+        site="isclose_deme_proportions", file="demes/demes.py", qual="isclose_deme_proportions", ty="bool",
+        params={"a_names": "strs", "a_proportions": "nums", "b_names": "strs", "b_proportions": "nums", "rel_tol": N, "abs_tol": N},
+        term="(close_props {a_names} {a_proportions} {b_names} {b_proportions} {rel_tol} {abs_tol})"),
+}
+METHOD_CALLS = {
+    # x.assert_close(y, ...) as a statement:  if <model> then <rest> else Err AssertErr; needs, besides the callee's tie,
+    # the "exact" lemma (the callee raises nothing but AssertionError), proved by the same tactic in the same run
+    ("rec:epoch", "assert_close"): dict(
+        site="Epoch_assert_close", file="demes/demes.py", qual="Epoch.assert_close",
+        params={"self": "rec:epoch", "other": "rec:epoch", "rel_tol": N, "abs_tol": N},
+        term="(close_epoch {rel_tol} {abs_tol} {self} {other})",
+        exact="forall self other rel_tol abs_tol, f_Epoch_assert_close self other rel_tol abs_tol = "
+              "(if close_epoch rel_tol abs_tol self other then Ok tt else Err AssertErr)"),
+}
+EXACT = {c["site"]: c["exact"] for c in METHOD_CALLS.values()}
+
+
+def module_consts(path):
+    """module-level NAME = <number>, for names assigned exactly once in the whole file"""
+    tree = ast.parse(open(os.path.join(REPO, path)).read())
+    count = {}
+    for n in ast.walk(tree):
+        tg = []
+        if isinstance(n, ast.Assign):
+            tg = n.targets
+        elif isinstance(n, (ast.AugAssign, ast.AnnAssign)):
+            tg = [n.target]
+        elif isinstance(n, ast.Global):
+            for nm in n.names:
+                count[nm] = count.get(nm, 0) + 2
+        for t in tg:
+            for x in ast.walk(t):
+                if isinstance(x, ast.Name):
+                    count[x.id] = count.get(x.id, 0) + 1
+    out = {}
+    for n in tree.body:
+        if (isinstance(n, ast.Assign) and len(n.targets) == 1 and isinstance(n.targets[0], ast.Name)
+                and isinstance(n.value, ast.Constant) and count.get(n.targets[0].id) == 1):
+            out[n.targets[0].id] = n.value.value
+    return out
+
+
+def call_args(spec, node, env, recv=None):
+    """the model term for a call of a tied function, its arguments bound through the callee's current signature"""
+    fn = load(spec["file"]).get(spec["qual"])
+    if fn is None:
+        raise Untranslatable("callee %s not found" % spec["qual"])
+    a = fn.args
+    if a.vararg or a.kwarg or a.posonlyargs:
+        raise Untranslatable("callee signature")
+    pos = [x.arg for x in a.args]
+    vals = {}
+    if recv is not None:
+        if not pos:
+            raise Untranslatable("callee is not a method")
+        vals[pos[0]] = recv
+        pos = pos[1:]
+    if len(node.args) > len(pos) or any(isinstance(x, ast.Starred) for x in node.args) or any(k.arg is None for k in node.keywords):
+        raise Untranslatable("call arguments of " + spec["qual"])
+    for name, x in zip(pos, node.args):
+        vals[name] = tr(x, env)
+    allowed = set(pos) | set(x.arg for x in a.kwonlyargs)
+    for k in node.keywords:
+        if k.arg not in allowed or k.arg in vals:
+            raise Untranslatable("keyword %s of %s" % (k.arg, spec["qual"]))
+        vals[k.arg] = tr(k.value, env)
+    defaults = dict(zip([x.arg for x in a.args][len(a.args) - len(a.defaults):], a.defaults))
+    defaults.update({x.arg: d for x, d in zip(a.kwonlyargs, a.kw_defaults) if d is not None})
+    consts = None
+    for name in pos + [x.arg for x in a.kwonlyargs]:
+        if name in vals:
+            continue
+        d = defaults.get(name)
+        if d is None:
+            raise Untranslatable("missing argument %s of %s" % (name, spec["qual"]))
+        if isinstance(d, ast.Name):
+            if consts is None:
+                consts = module_consts(spec["file"])
+            v = consts.get(d.id)
+        else:
+            v = d.value if isinstance(d, ast.Constant) else None
+        if type(v) is not float or v not in NUMCONST:
+            raise Untranslatable("default of %s in %s" % (name, spec["qual"]))
+        vals[name] = (NUMCONST[v], "num")
+    if set(vals) != set(spec["params"]):
+        raise Untranslatable("parameters of %s are now %s" % (spec["qual"], sorted(vals)))
+    for name, ty in spec["params"].items():
+        if vals[name][1] != ty:
+            raise Untranslatable("argument %s of %s has type %s" % (name, spec["qual"], vals[name][1]))
+    return spec["term"].format(**{k: v[0] for k, v in vals.items()})
+
+
+def bind_target(target, ety, term, env):
+    """bind a loop target (a name, or a pair pattern over a pair-typed element) to the Coq term of the element"""
+    if isinstance(target, ast.Name) and ety is not None:
+        if target.id in env:
+            raise Untranslatable("loop variable %s rebinds a bound name" % target.id)
+        if ety.startswith("rec:"):
+            return bind_record(env, target.id, term, ety[4:])
+        if ety in ("str", "num"):
+            env = dict(env)
+            env[target.id] = (term, ety)
+            return env
+    if isinstance(target, ast.Tuple) and len(target.elts) == 2 and ety is not None and ety.startswith("pair:"):
+        e1, e2 = _PAIRS[ety[5:]]
+        env = bind_target(target.elts[0], e1, "(fst %s)" % term, env)
+        return bind_target(target.elts[1], e2, "(snd %s)" % term, env)
+    raise Untranslatable("loop target %s over elements of type %s" % (ast.unparse(target), ety))
 
 
 def bind_record(env, pyname, coqname, kind):
@@ -816,6 +988,8 @@ def tr_block(stmts, env, ctx):
     if isinstance(s, ast.Pass):
         return tr_block(rest, env, ctx)
     if isinstance(s, ast.Return):
+        if ctx.get("inloop"):
+            raise Untranslatable("return inside a loop body")
         if s.value is None:
             ctx["types"].add("unit")
             return "Ok tt"
@@ -829,6 +1003,8 @@ def tr_block(stmts, env, ctx):
             raise Untranslatable("raise " + name)
         return "Err %s" % ERRS[name]
     if isinstance(s, ast.Assign) and len(s.targets) == 1 and isinstance(s.targets[0], ast.Name):
+        if ctx.get("inloop"):
+            raise Untranslatable("assignment inside a loop body")
         binds, term, ty, env2 = lift(s.value, env, ctx["counter"])
         env2 = dict(env2)
         if ty.startswith("rec:"):
@@ -859,7 +1035,87 @@ def tr_block(stmts, env, ctx):
             raise Untranslatable("loop test")
         return wrap(binds, "match find (fun %s => %s) %s with None => %s | Some %s => %s end"
                     % (v, cterm, term, tr_block(list(s.orelse), env1, ctx), v, tr_block(rest, env2, ctx)))
+    if (isinstance(s, ast.Try) and len(s.handlers) == 1 and not s.orelse and not s.finalbody
+            and isinstance(s.handlers[0].type, ast.Name) and s.handlers[0].type.id in ERRS
+            and len(s.handlers[0].body) == 1 and isinstance(s.handlers[0].body[0], ast.Raise)):
+        # try: S  except E [as e]: raise E(...) [from e]   re-raises the same class: it is S (errors are classes here)
+        r = s.handlers[0].body[0]
+        exc = r.exc.func if isinstance(r.exc, ast.Call) else r.exc
+        if isinstance(exc, ast.Name) and exc.id == s.handlers[0].type.id and exc.id not in env:
+            return tr_block(list(s.body) + rest, env, ctx)
+        raise Untranslatable("try statement with a handler that changes the exception")
+    if isinstance(s, ast.Expr) and isinstance(s.value, ast.Call) and isinstance(s.value.func, ast.Attribute):
+        # x.assert_close(y, ...) where the method is a tied function site
+        call = s.value
+        for x in [call.func.value] + list(call.args) + [k.value for k in call.keywords]:
+            if lift(x, env, ctx["counter"])[0]:
+                raise Untranslatable("raising operation in the arguments of a call")
+        recv = tr(call.func.value, env)
+        spec = METHOD_CALLS.get((recv[1], call.func.attr))
+        if spec is None or "<deps>" not in env:
+            raise Untranslatable("call statement " + ast.unparse(s)[:60])
+        cond = call_args(spec, call, env, recv=recv)
+        env["<deps>"].add(spec["site"])
+        return "(if %s then %s else Err AssertErr)" % (cond, tr_block(rest, env, ctx))
+    if isinstance(s, ast.For) and not s.orelse:
+        return tr_for(s, rest, env, ctx)
     raise Untranslatable("statement " + type(s).__name__ + ": " + ast.unparse(s)[:60])
+
+
+def fresh_var(env, ctx, hint="z"):
+    ctx["counter"][0] += 1
+    v = "%s_%d" % (hint, ctx["counter"][0])
+    if v in env:
+        raise Untranslatable("name clash " + v)
+    return v
+
+
+def tr_for(s, rest, env, ctx):
+    """for <target> in xs / zip(xs, ys) / enumerate(...):  a loop whose body neither returns, assigns, breaks nor
+    continues is forM_ / forM2_ of the body; the search loop `if c: return False` followed by `return True` is
+    forallb / forall2b of the negated test"""
+    it, target = s.iter, s.target
+    if (isinstance(it, ast.Call) and ast.unparse(it.func) == "enumerate" and "enumerate" not in env and len(it.args) == 1
+            and not it.keywords):
+        # the index may only be used where nothing is translated (messages): it stays unbound
+        if not (isinstance(target, ast.Tuple) and len(target.elts) == 2 and isinstance(target.elts[0], ast.Name)
+                and target.elts[0].id not in env):
+            raise Untranslatable("enumerate target")
+        it, target = it.args[0], target.elts[1]
+    binds = []
+    if isinstance(it, ast.Call) and ast.unparse(it.func) == "zip" and "zip" not in env and len(it.args) == 2 and not it.keywords:
+        if not (isinstance(target, ast.Tuple) and len(target.elts) == 2):
+            raise Untranslatable("target of a loop over zip")
+        b1, ta, tya, env1 = lift(it.args[0], env, ctx["counter"])
+        b2, tb, tyb, env1 = lift(it.args[1], env1, ctx["counter"])
+        binds = b1 + b2
+        x, y = fresh_var(env1, ctx), fresh_var(env1, ctx)
+        env2 = bind_target(target.elts[0], elem_type(tya), x, env1)
+        env2 = bind_target(target.elts[1], elem_type(tyb), y, env2)
+        lam, lists, allf, loopf = "fun %s %s" % (x, y), "%s %s" % (ta, tb), "forall2b", "forM2_"
+    else:
+        binds, ta, tya, env1 = lift(it, env, ctx["counter"])
+        x = fresh_var(env1, ctx)
+        env2 = bind_target(target, elem_type(tya), x, env1)
+        lam, lists, allf, loopf = "fun %s" % x, ta, "forallb", "forM_"
+    body = list(s.body)
+
+    def const_bool(st, v):
+        return isinstance(st, ast.Return) and isinstance(st.value, ast.Constant) and st.value.value is v
+    if (len(body) == 1 and isinstance(body[0], ast.If) and not body[0].orelse and len(body[0].body) == 1
+            and const_bool(body[0].body[0], False)):
+        if not (len(rest) == 1 and const_bool(rest[0], True)) or ctx.get("inloop"):
+            raise Untranslatable("search loop not followed by `return True`")
+        cb, cterm, cty, _ = lift(body[0].test, env2, ctx["counter"])
+        if cb or cty != "bool":
+            raise Untranslatable("loop test")
+        ctx["types"].add("bool")
+        return wrap(binds, "Ok (%s (%s => negb %s) %s)" % (allf, lam, cterm, lists))
+    bctx = dict(ctx, types=set(), inloop=ctx.get("inloop", 0) + 1)
+    bterm = tr_block(body, env2, bctx)
+    if bctx["types"] - {"unit"}:
+        raise Untranslatable("loop body with a value")
+    return wrap(binds, "(%s (%s => %s) %s ;;; %s)" % (loopf, lam, bterm, lists, tr_block(rest, env1, ctx)))
 
 
 TOL = {"rel_tol": ("rel", N), "abs_tol": ("abs", N)}
@@ -895,6 +1151,25 @@ FUN_SITES = [
     ("v_unit_interval_lo", "demes/demes.py", "unit_interval_exclusive_lo", [("self", "skip"), ("attribute", "skip"), ("value", N)],
      "(value : num)", "unit", "forall value, f_v_unit_interval_lo value = unit_interval_lo value", "unit_interval_lo raise_if",
      ["C01", "C03"]),
+    ("isclose_deme_proportions", "demes/demes.py", "isclose_deme_proportions",
+     [("a_names", "strs"), ("a_proportions", "nums"), ("b_names", "strs"), ("b_proportions", "nums"), ("rel_tol", N), ("abs_tol", N)],
+     "(a_names : list string) (a_proportions : list num) (b_names : list string) (b_proportions : list num) (rel_tol abs_tol : num)",
+     "bool",
+     "forall a_names a_proportions b_names b_proportions rel_tol abs_tol, "
+     "f_isclose_deme_proportions a_names a_proportions b_names b_proportions rel_tol abs_tol = "
+     "Ok (close_props a_names a_proportions b_names b_proportions rel_tol abs_tol)", "close_props", ["C10"]),
+    ("Deme_assert_close", "demes/demes.py", "Deme.assert_close",
+     [("self", "rec:deme"), ("other", "rec:deme"), ("rel_tol", N), ("abs_tol", N)],
+     "(self other : deme) (rel_tol abs_tol : num)", "unit",
+     "forall self other rel_tol abs_tol, is_ok (f_Deme_assert_close self other rel_tol abs_tol) = close_deme rel_tol abs_tol self other",
+     "close_deme is_ok", ["C10"]),
+    ("Pulse_assert_close", "demes/demes.py", "Pulse.assert_close",
+     [("self", "rec:pulse"), ("other", "rec:pulse"), ("rel_tol", N), ("abs_tol", N)],
+     "(self other : pulse) (rel_tol abs_tol : num)", "unit",
+     "forall self other rel_tol abs_tol, is_ok (f_Pulse_assert_close self other rel_tol abs_tol) = close_pulse rel_tol abs_tol self other",
+     "close_pulse mem_str is_ok", ["C10"]),
+    ("Pulse_post_init", "demes/demes.py", "Pulse.__attrs_post_init__", [("self", "rec:pulse")], "(self : pulse)", "unit",
+     "forall self, f_Pulse_post_init self = pulse_post_init self", "pulse_post_init raise_if", ["C01", "C03"]),
     ("Epoch_post_init", "demes/demes.py", "Epoch.__attrs_post_init__", [("self", "rec:epoch")], "(self : epoch)", "unit",
      "forall self, f_Epoch_post_init self = epoch_post_init self", "epoch_post_init raise_if", ["C01", "C03"]),
     ("AsymmetricMigration_post_init", "demes/demes.py", "AsymmetricMigration.__attrs_post_init__", [("self", "rec:mig")], "(self : mig)",
@@ -912,7 +1187,7 @@ def generate_funs():
         if fn is None:
             status = "function %s not found" % qual
         else:
-            env = {}
+            env = {"<deps>": set()}
             for name, ty in params:
                 if ty == "skip":        # a parameter the body may not use (attrs passes self and the attribute to validators)
                     env["__skip__" + name] = ("tt", "other")
@@ -936,7 +1211,7 @@ def generate_funs():
                 except Untranslatable as e:
                     status = "untranslatable: %s" % e
         report.append(dict(site="f_" + sid, file=path, function=qual, index=None, status=status, props=props,
-                           source=(term or "")[:600]))
+                           source=(term or "")[:600], deps=(sorted(env["<deps>"]) if fn is not None else [])))
         if status != "ok":
             continue
         defs.append("  (* %s  %s: the whole function body *)\n  Definition f_%s %s : res %s :=\n    %s.\n" % (path, qual, sid, binders, rty, term))
@@ -956,8 +1231,36 @@ FUNTIE_HEADER = FUN_HEADER + """From Demes Require Import Gen.SrcFuns.
 
 (* [ftie]: the translated body equals the model's function: by conversion when both are spelt alike, else by case
    analysis on the atomic tests, the search result, the list head and the partial arithmetic operations. *)
+Ltac ftie_go := fail.
 Ltac ftie_step :=
   match goal with
+  (* a loop of one assertion is the assertion of forallb / forall2b (Proofs/FunSites.v) *)
+  | |- context [forM_ (fun x => if @?c x then Ok tt else Err AssertErr) ?l] =>
+      let H := fresh in pose proof (forM_assert c l) as H; cbv beta in H; rewrite H; clear H
+  | |- context [forM2_ (fun x y => if @?c x y then Ok tt else Err AssertErr) ?a ?b] =>
+      let H := fresh in pose proof (forM2_assert c a b) as H; cbv beta in H; rewrite H; clear H
+  (* two loops over the same lists whose bodies are spelt differently: equal if the bodies are, pointwise *)
+  | |- context [forall2b ?f ?a ?b] =>
+      match goal with |- context [forall2b ?g a b] =>
+        tryif constr_eq f g then fail else
+          replace (forall2b f a b) with (forall2b g a b) by (apply forall2b_ext; intros; ftie_go) end
+  | |- context [forallb ?f ?l] =>
+      match goal with |- context [forallb ?g l] =>
+        tryif constr_eq f g then fail else
+          replace (forallb f l) with (forallb g l) by (apply forallb_ext_all; intros; ftie_go) end
+  | |- context [forM_ ?f ?l] =>
+      match goal with |- context [forM_ ?g l] =>
+        tryif constr_eq f g then fail else
+          replace (forM_ f l) with (forM_ g l) by (apply forM_ext_all; intros; ftie_go) end
+  | |- context [forM2_ ?f ?a ?b] =>
+      match goal with |- context [forM2_ ?g a b] =>
+        tryif constr_eq f g then fail else
+          replace (forM2_ f a b) with (forM2_ g a b) by (apply forM2_ext_all; intros; ftie_go) end
+  (* a == b spelt b == a *)
+  | |- context [String.eqb ?a ?b] =>
+      match goal with |- context [String.eqb b a] => tryif constr_eq a b then fail else rewrite (String.eqb_sym a b) end
+  | |- context [Nat.eqb ?a ?b] =>
+      match goal with |- context [Nat.eqb b a] => tryif constr_eq a b then fail else rewrite (Nat.eqb_sym a b) end
   | |- context [phead ?l] => is_var l; destruct l
   | |- context [phead (?f ?l)] => let x := fresh in destruct (f l) eqn:x
   | |- context [phead (rev ?l)] => let x := fresh in destruct (rev l) eqn:x
@@ -969,14 +1272,21 @@ Ltac ftie_step :=
   | |- context [isclose0 ?a ?b] => let x := fresh in destruct (isclose0 a b) eqn:x
   | |- context [isclose ?a ?b ?c ?d] => let x := fresh in destruct (isclose a b c d) eqn:x
   | |- context [String.eqb ?a ?b] => let x := fresh in destruct (String.eqb a b) eqn:x
+  | |- context [Nat.eqb ?a ?b] => let x := fresh in destruct (Nat.eqb a b) eqn:x
   | |- context [pdiv ?a ?b] => let x := fresh in destruct (pdiv a b) eqn:x
   | |- context [plog ?a] => let x := fresh in destruct (plog a) eqn:x
   | |- context [pexp ?a] => let x := fresh in destruct (pexp a) eqn:x
+  | |- context [close_props ?a ?b ?c ?d ?e ?f] => let x := fresh in destruct (close_props a b c d e f) eqn:x
+  | |- context [existsb ?f ?l] => let x := fresh in destruct (existsb f l) eqn:x
+  | |- context [forallb ?f ?l] => let x := fresh in destruct (forallb f l) eqn:x
+  | |- context [forall2b ?f ?a ?b] => let x := fresh in destruct (forall2b f a b) eqn:x
+  | |- context [forM_ ?f ?l] => let x := fresh in destruct (forM_ f l) eqn:x
+  | |- context [forM2_ ?f ?a ?b] => let x := fresh in destruct (forM2_ f a b) eqn:x
   end; cbn [bind phead is_ok negb andb orb].
 (* reflexivity is tried before every case split, so the number of cases is that of the paths through the body *)
-Ltac ftie_go := first [ reflexivity | ftie_step; ftie_go ].
+Ltac ftie_go ::= first [ reflexivity | ftie_step; ftie_go ].
 Ltac ftie := intros; first [ reflexivity
-                            | unfold ngt, nge, nneq, mem; cbn [existsb bind phead is_ok]; timeout 120 ftie_go ].
+                            | unfold ngt, nge, nneq, mem; cbv zeta; cbn [existsb bind phead is_ok]; timeout 120 ftie_go ].
 """
 
 
@@ -1009,6 +1319,11 @@ def funs_gen(outdir, coqc, report, byid):
         for sid, stmt, unfold in fties:
             f.write('  Goal %s.\n  Proof. tryif solve [unfold %s, %s; ftie] then idtac "TIE-OK %s" else idtac "TIE-BROKEN %s". Abort.\n'
                     % (stmt, sid, ", ".join(unfold.split()), sid, sid))
+        # the "exact" lemmas that justify calls of a tied method from other function sites
+        for sid, stmt, unfold in fties:
+            if sid[2:] in EXACT:
+                f.write('  Goal %s.\n  Proof. tryif solve [unfold %s, %s; ftie] then idtac "TIE-OK call_%s" else idtac "TIE-BROKEN call_%s". Abort.\n'
+                        % (EXACT[sid[2:]], sid, ", ".join(unfold.split()), sid[2:], sid[2:]))
         f.write("End FunProbe.\n")
     r = coqc("FunProbe.v")
     out = (r.stdout + r.stderr).split()
@@ -1016,11 +1331,26 @@ def funs_gen(outdir, coqc, report, byid):
     for sid, stmt, unfold in fties:
         if sid not in okset:
             byid[sid]["status"] = "tie broken: the function body translated from the source is not the model's function"
+    # a site that calls another function site stands only if the callee's own tie (and its exact lemma) holds in this run
+    changed = True
+    while changed:
+        changed = False
+        for x in freport:
+            if x["status"] != "ok":
+                continue
+            for dep in x.get("deps", []):
+                if not (byid.get("f_" + dep, {}).get("status") == "ok" and (dep not in EXACT or "call_" + dep in okset)):
+                    x["status"] = "tie broken: calls %s, whose own whole-function tie does not hold in this run" % dep
+                    changed = True
+                    break
     with open(os.path.join(outdir, "FunTie.v"), "w") as f:
         f.write(FUNTIE_HEADER + "\nSection FunTie.\n  Context {N : NumOps}.\n\n")
         for sid, stmt, unfold in fties:
             if byid[sid]["status"] == "ok":
                 f.write("  Lemma tie_%s : %s.\n  Proof. unfold %s, %s; ftie. Qed.\n\n" % (sid, stmt, sid, ", ".join(unfold.split())))
+                if sid[2:] in EXACT and "call_" + sid[2:] in okset:
+                    f.write("  Lemma call_%s : %s.\n  Proof. unfold %s, %s; ftie. Qed.\n\n"
+                            % (sid[2:], EXACT[sid[2:]], sid, ", ".join(unfold.split())))
         f.write("End FunTie.\n")
     r = coqc("FunTie.v")
     if r.returncode != 0:
